@@ -48,6 +48,9 @@ type plant struct {
 	// imports of a file it does not compile, e.g. every file of the module for a .proto file reference with
 	// include_package_files=true.
 	Prescan bool
+	// Variant (Kind unformatted): which formatting difference the plant puts into its file; "" is the
+	// original one (additional blanks between two tokens of a message declaration). See formatVariants.
+	Variant string
 }
 
 var plants = []plant{
@@ -68,18 +71,92 @@ var plants = []plant{
 	{ID: "S3", Kind: "compile", File: "a2", Syntax: true, Prescan: true}, // an additional file next to a.proto with a malformed package statement
 }
 
+// nCorePlants: the plants above are combined with each other in every subset; the formatting variants that
+// init appends behind them (one plant per variant and file) are a dimension of their own (see cliPlanted).
+const nCorePlants = 14
+
+// formatVariant is one way in which a file can differ from its formatted form: where the difference lies
+// (first byte, inside a line, between two declarations, last byte, behind the last line) and what it is made of
+// (blanks, tabs, line terminators, an empty statement). Every edit is defined on any file text, so a
+// variant combines with every other plant.
+type formatVariant struct {
+	ID   string
+	Edit func(text string) string
+}
+
+func replaceFirst(text, old, new string) string { return strings.Replace(text, old, new, 1) }
+
+var formatVariants = []formatVariant{
+	{"eof-no-newline", func(t string) string { return strings.TrimSuffix(t, "\n") }},
+	{"eof-blank-line", func(t string) string { return t + "\n" }},
+	{"eof-blank-lines", func(t string) string { return t + "\n\n\n" }},
+	{"eof-spaces", func(t string) string { return t + "  " }},
+	{"bof-blank-line", func(t string) string { return "\n" + t }},
+	{"line-trailing-space", func(t string) string { return replaceFirst(t, ";\n", "; \n") }},
+	{"tab-indent", func(t string) string { return replaceFirst(t, "\n  ", "\n\t") }},
+	{"crlf", func(t string) string { return strings.ReplaceAll(t, "\n", "\r\n") }},
+	{"extra-blank-line-inside", func(t string) string { return replaceFirst(t, "\n\n", "\n\n\n") }},
+	{"empty-statement", func(t string) string { return replaceFirst(t, ";\n", ";;\n") }},
+}
+
+func init() {
+	for _, file := range []string{"a", "b"} {
+		for _, v := range formatVariants {
+			plants = append(plants, plant{ID: "U" + file + "-" + v.ID, Kind: "unformatted", File: file, Variant: v.ID})
+		}
+	}
+}
+
+func variantEdit(id string) func(string) string {
+	for _, v := range formatVariants {
+		if v.ID == id {
+			return v.Edit
+		}
+	}
+	panic(id)
+}
+
+// naming is how the .proto files of the workspace are called (their directories stay). The file name is part
+// of every annotation, and formats derive fields from it (JUnit names a suite after the file without its
+// .proto extension), so the relation between the stem and the extension is a dimension: stems ending in each
+// letter of the extension, a stem that is the extension's word.
+type naming struct {
+	ID    string
+	Paths map[string]string // a | a2 | b -> module-relative path
+}
+
+var namings = []naming{
+	{ID: "default", Paths: logicalPath},
+	{ID: "stems-end-in-t", Paths: map[string]string{"a": "a/v1/report.proto", "a2": "a/v1/export.proto", "b": "b/v1/import.proto"}},
+	{ID: "stems-end-in-p-r", Paths: map[string]string{"a": "a/v1/atop.proto", "a2": "a/v1/app.proto", "b": "b/v1/bar.proto"}},
+	{ID: "stems-end-in-o-or-are-proto", Paths: map[string]string{"a": "a/v1/foo.proto", "a2": "a/v1/auto.proto", "b": "b/v1/proto.proto"}},
+}
+
+func (job wsJob) naming() naming {
+	if job.names.ID == "" {
+		return namings[0]
+	}
+	return job.names
+}
+
 // logicalPath is the module-relative path of the files a plant can edit.
 var logicalPath = map[string]string{"a": "a/v1/a.proto", "a2": "a/v1/a2.proto", "b": "b/v1/b.proto"}
 
 // render writes the workspace files for a set of plants (indices into plants). ok=false: the
 // combination is not meaningful (a plant edits the file another one deletes).
-func render(set []int) (files map[string]string, ok bool) {
+func render(set []int) (files map[string]string, ok bool) { return renderNamed(set, namings[0]) }
+
+func renderNamed(set []int, nm naming) (files map[string]string, ok bool) {
 	has := map[string]bool{}
 	for _, i := range set {
 		has[plants[i].ID] = true
 	}
-	if has["K3"] && (has["L2"] || has["C2"] || has["M1"] || has["U2"] || has["S1"] || has["S2"]) {
-		return nil, false
+	if has["K3"] {
+		for _, i := range set {
+			if plants[i].File == "b" {
+				return nil, false
+			}
+		}
 	}
 	var a strings.Builder
 	a.WriteString("syntax = \"proto3\";\n\npackage a.v1;\n\n")
@@ -106,16 +183,25 @@ func render(set []int) (files map[string]string, ok bool) {
 	if has["L3"] {
 		a.WriteString("\nenum Extra {\n  EXTRA_ONE = 0;\n}\n")
 	}
-	files = map[string]string{"buf.yaml": bufYAML, "a/v1/a.proto": a.String()}
+	// the formatting variants edit the finished text of their file
+	variants := func(file, text string) string {
+		for _, i := range set {
+			if p := plants[i]; p.Variant != "" && p.File == file {
+				text = variantEdit(p.Variant)(text)
+			}
+		}
+		return text
+	}
+	files = map[string]string{"buf.yaml": bufYAML, nm.Paths["a"]: variants("a", a.String())}
 	if has["S3"] {
-		files["a/v1/a2.proto"] = "syntax = \"proto3\";\n\npackage a..v1;\n\nmessage Sibling {}\n"
+		files[nm.Paths["a2"]] = "syntax = \"proto3\";\n\npackage a..v1;\n\nmessage Sibling {}\n"
 	}
 	if !has["K3"] {
 		var b strings.Builder
 		if has["S1"] {
-			b.WriteString("syntax = \"proto3\";\n\npackage b..v1;\n\nimport \"a/v1/a.proto\";\n")
+			b.WriteString("syntax = \"proto3\";\n\npackage b..v1;\n\nimport \"" + nm.Paths["a"] + "\";\n")
 		} else {
-			b.WriteString("syntax = \"proto3\";\n\npackage b.v1;\n\nimport \"a/v1/a.proto\";\n")
+			b.WriteString("syntax = \"proto3\";\n\npackage b.v1;\n\nimport \"" + nm.Paths["a"] + "\";\n")
 		}
 		if has["S2"] {
 			b.WriteString("import nope;\n")
@@ -136,7 +222,7 @@ func render(set []int) (files map[string]string, ok bool) {
 		if has["C2"] {
 			b.WriteString("\nmessage Open {\n")
 		}
-		files["b/v1/b.proto"] = b.String()
+		files[nm.Paths["b"]] = variants("b", b.String())
 	}
 	return files, true
 }
@@ -196,16 +282,16 @@ func layoutFiles(layout string, files map[string]string) map[string]string {
 }
 
 // input returns the positional input and the extra flags that express the shape for the workspace at root.
-func (sh shape) input(layout, root string) (in string, extra []string) {
+func (sh shape) input(layout, root string, nm naming) (in string, extra []string) {
 	switch sh.Kind {
 	case "dir":
 		return root, nil
 	case "file":
-		return filepath.Join(root, physical(layout, logicalPath[sh.Target])), nil
+		return filepath.Join(root, physical(layout, nm.Paths[sh.Target])), nil
 	case "pkgfiles":
-		return filepath.Join(root, physical(layout, logicalPath[sh.Target])) + "#include_package_files=true", nil
+		return filepath.Join(root, physical(layout, nm.Paths[sh.Target])) + "#include_package_files=true", nil
 	case "path":
-		return root, []string{"--path", filepath.Join(root, filepath.Dir(physical(layout, logicalPath[sh.Target])))}
+		return root, []string{"--path", filepath.Join(root, filepath.Dir(physical(layout, nm.Paths[sh.Target])))}
 	}
 	panic(sh.Kind)
 }
@@ -321,6 +407,7 @@ type cliCase struct {
 	Dir       string            `json:"dir_name"`
 	Shape     string            `json:"input_shape,omitempty"`
 	Layout    string            `json:"layout,omitempty"`
+	Naming    string            `json:"file_naming,omitempty"`
 	Files     map[string]string `json:"files,omitempty"`
 	Command   string            `json:"command"`
 	Args      []string          `json:"args"`
@@ -348,7 +435,29 @@ type cliStats struct {
 	viaScanOnly                               atomic.Int64 // runs on a workspace whose only source problem in scope is one that only the package scan can see
 	formatRewrote, formatWroteOutput          atomic.Int64 // -w runs that changed the sources / -o runs whose output differs from the sources
 	formatModesCompared                       atomic.Int64
+	formatConcatHides                         atomic.Int64 // workspaces where the concatenation of the sources equals that of the formatted files although files differ
 	buildOutputWritten                        atomic.Int64
+	perNaming                                 map[string]int // workspaces per file naming
+	perNamingJUnit                            map[string]int // annotations with a file whose junit rendering was compared with json, per file naming
+	perVariant                                map[string]int // format -w runs that rewrote the sources of a workspace whose only planted problem is this formatting variant
+}
+
+func bump(mu *sync.Mutex, m *map[string]int, key string) {
+	mu.Lock()
+	if *m == nil {
+		*m = map[string]int{}
+	}
+	(*m)[key]++
+	mu.Unlock()
+}
+
+func (st *cliStats) countNaming(id string)      { bump(&st.mu, &st.perNaming, id) }
+func (st *cliStats) countJUnitNaming(id string) { bump(&st.mu, &st.perNamingJUnit, id) }
+func (st *cliStats) countVariant(id string) {
+	if id == "" {
+		id = "blanks-between-tokens"
+	}
+	bump(&st.mu, &st.perVariant, id)
 }
 
 func (st *cliStats) count(key string) {
@@ -377,6 +486,10 @@ type wsJob struct {
 	dirName string
 	shape   shape
 	layout  string
+	// names: how the .proto files are called (zero value: the default naming)
+	names naming
+	// formatOnly: run only `buf format --exit-code` in its six output modes
+	formatOnly bool
 }
 
 func plantIDs(set []int) []string {
@@ -465,6 +578,18 @@ func truthFromJSON(ps []parsed) []ann {
 	return out
 }
 
+// formatSources is the target sources of a workspace before a `buf format` run.
+type formatSources struct {
+	byFile string // every target file framed by its name, in path order: compared with what -w / -o wrote
+	concat string // the plain concatenation in path order: compared with what plain `buf format` prints
+	// concatHidesDifference: the sources differ from their formatted form file by file, but the concatenations are
+	// the same bytes (a missing final newline of one file and a blank first line of the next): plain `buf format`
+	// of a multi-file input prints the concatenation and so cannot show the difference it found. Status 100 is
+	// still what the property demands; only the "exit 100 => a difference is shown" direction is not applied to
+	// the plain mode there.
+	concatHidesDifference bool
+}
+
 // formatRun is one `buf format` run together with what it did outside its standard streams.
 type formatRun struct {
 	res bufx.CLIResult
@@ -475,24 +600,25 @@ type formatRun struct {
 
 // runWorkspace runs every command x format on one workspace and checks all oracles.
 func runWorkspace(ctx context.Context, r *evid.Run, st *cliStats, scratch string, n int, job wsJob) {
-	logical, ok := render(job.set)
+	nm := job.naming()
+	logical, ok := renderNamed(job.set, nm)
 	if !ok {
 		return
 	}
 	sh, layout := job.shape, job.layout
 	if sh.Target == "b" {
-		if _, ok := logical[logicalPath["b"]]; !ok {
+		if _, ok := logical[nm.Paths["b"]]; !ok {
 			return // the reference would name a file the planted set deletes
 		}
 	}
-	if _, ok := logical[logicalPath["b"]]; !ok && layout == "multi" {
+	if _, ok := logical[nm.Paths["b"]]; !ok && layout == "multi" {
 		return // module modb would have no file at all, which buf rejects as a configuration error
 	}
 	files := layoutFiles(layout, logical)
 	root := filepath.Join(scratch, fmt.Sprintf("w%d", n))
 	dir := filepath.Join(root, job.dirName)
 	against := filepath.Join(root, "old-"+job.dirName)
-	baseLogical, _ := render(nil)
+	baseLogical, _ := renderNamed(nil, nm)
 	if err := writeFiles(dir, files); err != nil {
 		r.Incomplete("scratch: " + err.Error())
 		return
@@ -511,41 +637,73 @@ func runWorkspace(ctx context.Context, r *evid.Run, st *cliStats, scratch string
 		label = "clean"
 	}
 	base := sh.Kind == "dir" && layout == "single"
-	if base {
+	// full: all five renderings are compared also in the quick tier (the base shape; every workspace with another file naming)
+	full := base || nm.ID != namings[0].ID
+	switch {
+	case nm.ID != namings[0].ID:
+		r.Distinct("B|" + job.dirName + "|" + sh.ID + "|" + layout + "|" + label + "|" + nm.ID)
+	case base:
 		r.Distinct("B|" + job.dirName + "|" + label)
-	} else {
+	default:
 		r.Distinct("B|" + job.dirName + "|" + sh.ID + "|" + layout + "|" + label)
 	}
+	st.countNaming(nm.ID)
 	newlineDir := strings.Contains(job.dirName, "\n")
 
 	var sp inputSpec
-	sp.in, sp.extra = sh.input(layout, dir)
-	sp.against, _ = sh.input(layout, against)
+	sp.in, sp.extra = sh.input(layout, dir, nm)
+	sp.against, _ = sh.input(layout, against, nm)
 	targets, _, _ := sh.scope(layout)
 	// the target .proto files in path order (module-relative and physical order coincide)
 	var targetLogical []string
-	for key, p := range logicalPath {
+	for key, p := range nm.Paths {
 		if _, ok := logical[p]; ok && targets[key] {
 			targetLogical = append(targetLogical, p)
 		}
 	}
 	sort.Strings(targetLogical)
+	// readAll returns the content of the files framed by their names (file by file: the plain concatenation of
+	// two files does not tell where one ends, "...}" + "\n..." and "...}\n" + "..." are the same bytes)
+	frame := func(p, data string) string { return "\x00" + p + "\x00" + data }
 	readAll := func(base string, paths []string, phys bool) string {
 		var b strings.Builder
 		for _, p := range paths {
+			at := p
 			if phys {
-				p = physical(layout, p)
+				at = physical(layout, p)
 			}
-			data, _ := os.ReadFile(filepath.Join(base, filepath.FromSlash(p)))
-			b.Write(data)
+			data, _ := os.ReadFile(filepath.Join(base, filepath.FromSlash(at)))
+			b.WriteString(frame(p, string(data)))
 		}
 		return b.String()
 	}
-	sources := readAll(dir, targetLogical, true)
+	src := formatSources{byFile: readAll(dir, targetLogical, true)}
+	// what plain `buf format` prints is the concatenation of the formatted files. The model's formatted form of
+	// the workspace is the same planted set without its formatting plants.
+	var unplanted []int
+	for _, i := range job.set {
+		if plants[i].Kind != "unformatted" {
+			unplanted = append(unplanted, i)
+		}
+	}
+	formatted, _ := renderNamed(unplanted, nm)
+	var formattedByFile, formattedConcat strings.Builder
+	for _, p := range targetLogical {
+		src.concat += logical[p]
+		formattedConcat.WriteString(formatted[p])
+		formattedByFile.WriteString(frame(p, formatted[p]))
+	}
+	src.concatHidesDifference = formattedByFile.String() != src.byFile && formattedConcat.String() == src.concat
+	if src.concatHidesDifference {
+		st.formatConcatHides.Add(1)
+	}
 
 	cmds := append(append([]string(nil), commands...), outputModeCommands...)
 	formatRuns := map[string]map[string]formatRun{} // command -> format -> run
 	for _, cmd := range cmds {
+		if job.formatOnly && !isFormatCommand(cmd) {
+			continue
+		}
 		if isFormatCommand(cmd) && sh.Kind == "pkgfiles" {
 			continue // `buf format` does not accept include_package_files (an operational error, see cliOperational)
 		}
@@ -571,7 +729,7 @@ func runWorkspace(ctx context.Context, r *evid.Run, st *cliStats, scratch string
 			}
 		case cmd == "build-o" && r.Quick():
 			fmts = formats[:2]
-		case r.Quick() && !base:
+		case r.Quick() && !full:
 			// the printers are the same for every input shape; quick compares three of the five renderings there
 			fmts = []string{"text", "json", "github-actions"}
 		default:
@@ -592,7 +750,7 @@ func runWorkspace(ctx context.Context, r *evid.Run, st *cliStats, scratch string
 		runs := map[string]formatRun{}
 		mk := func(format, note string) cliCase {
 			res := results[format]
-			return cliCase{Workspace: ids, Dir: job.dirName, Shape: sh.ID, Layout: layout, Files: files, Command: cmd, Args: argsForSpec(cmd, sp, format), Format: format, Exit: res.ExitCode, Stdout: res.Stdout, Stderr: res.Stderr, Note: note}
+			return cliCase{Workspace: ids, Dir: job.dirName, Shape: sh.ID, Layout: layout, Naming: nm.ID, Files: files, Command: cmd, Args: argsForSpec(cmd, sp, format), Format: format, Exit: res.ExitCode, Stdout: res.Stdout, Stderr: res.Stderr, Note: note}
 		}
 		cut := false
 		for _, format := range fmts {
@@ -610,7 +768,7 @@ func runWorkspace(ctx context.Context, r *evid.Run, st *cliStats, scratch string
 			case "format-o", "format-do":
 				if sh.Kind == "file" {
 					data, _ := os.ReadFile(sp.out)
-					run.after = string(data)
+					run.after = frame(targetLogical[0], string(data))
 				} else {
 					run.after = readAll(sp.out, targetLogical, false)
 				}
@@ -656,7 +814,7 @@ func runWorkspace(ctx context.Context, r *evid.Run, st *cliStats, scratch string
 		}
 		if isFormatCommand(cmd) {
 			formatRuns[cmd] = runs
-			checkFormatCommand(r, st, cmd, job, dir, sources, targetLogical, runs, mk)
+			checkFormatCommand(r, st, cmd, job, dir, src, targetLogical, runs, mk)
 			continue
 		}
 		// O1: exit status vs what was printed, per format
@@ -761,6 +919,13 @@ func runWorkspace(ctx context.Context, r *evid.Run, st *cliStats, scratch string
 				continue
 			}
 			st.annotationsCompared.Add(int64(len(truth)))
+			if format == "junit" {
+				for _, a := range truth {
+					if !a.NoFile {
+						st.countJUnitNaming(nm.ID)
+					}
+				}
+			}
 			if kind, i := firstDisagreement(format, truth, got); kind != "" {
 				sig := classify(format, "cli/"+kind+"/"+format, truth)
 				if strings.HasPrefix(sig, "F7/") {
@@ -777,7 +942,7 @@ func runWorkspace(ctx context.Context, r *evid.Run, st *cliStats, scratch string
 		if sh.Kind == "file" {
 			spc.out += ".proto"
 		}
-		return cliCase{Workspace: ids, Dir: job.dirName, Shape: sh.ID, Layout: layout, Files: files, Command: cmd, Args: argsForSpec(cmd, spc, format), Format: format, Exit: res.ExitCode, Stdout: res.Stdout, Stderr: res.Stderr}
+		return cliCase{Workspace: ids, Dir: job.dirName, Shape: sh.ID, Layout: layout, Naming: nm.ID, Files: files, Command: cmd, Args: argsForSpec(cmd, spc, format), Format: format, Exit: res.ExitCode, Stdout: res.Stdout, Stderr: res.Stderr}
 	})
 }
 
@@ -821,7 +986,7 @@ func checkConfigIgnoreYAML(r *evid.Run, st *cliStats, dir string, truth []ann, o
 // difference", per mode: plain: stdout is the formatted content of every target file in path order, it differs
 // from the sources exactly when a file is not formatted; -d: stdout is the diff; -w: the sources on disk after
 // the run differ from the sources before it; -o: what was written to the output location differs from the sources.
-func checkFormatCommand(r *evid.Run, st *cliStats, cmd string, job wsJob, dir, sources string, targetLogical []string, runs map[string]formatRun, mk func(format, note string) cliCase) {
+func checkFormatCommand(r *evid.Run, st *cliStats, cmd string, job wsJob, dir string, src formatSources, targetLogical []string, runs map[string]formatRun, mk func(format, note string) cliCase) {
 	first := runs[formats[0]]
 	printsDiff := cmd == "format-d" || cmd == "format-dw" || cmd == "format-do"
 	for _, format := range formats {
@@ -838,16 +1003,19 @@ func checkFormatCommand(r *evid.Run, st *cliStats, cmd string, job wsJob, dir, s
 		var differs bool
 		switch cmd {
 		case "format":
-			differs = res.Stdout != sources
+			differs = res.Stdout != src.concat
 		case "format-d":
 			differs = res.Stdout != ""
 		default:
-			differs = run.after != sources
+			differs = run.after != src.byFile
 		}
 		if differs {
 			switch cmd {
 			case "format-w", "format-dw":
 				st.formatRewrote.Add(1)
+				if len(job.set) == 1 && plants[job.set[0]].Kind == "unformatted" {
+					st.countVariant(plants[job.set[0]].Variant)
+				}
 			case "format-o", "format-do":
 				st.formatWroteOutput.Add(1)
 			}
@@ -860,7 +1028,7 @@ func checkFormatCommand(r *evid.Run, st *cliStats, cmd string, job wsJob, dir, s
 			}
 		case 100:
 			st.formatDiff.Add(1)
-			if !differs {
+			if !differs && !(cmd == "format" && src.concatHidesDifference) {
 				r.Violate("cli/exit-100-nothing-printed/"+cmd, "buf format --exit-code exits 100 but shows no difference", mk(format, ""))
 			}
 			if res.Stderr != "" {
@@ -875,7 +1043,7 @@ func checkFormatCommand(r *evid.Run, st *cliStats, cmd string, job wsJob, dir, s
 					unformatted := false
 					for _, i := range job.set {
 						pl := plants[i]
-						if pl.Kind == "unformatted" && logicalPath[pl.File] == p {
+						if pl.Kind == "unformatted" && job.naming().Paths[pl.File] == p {
 							unformatted = true
 						}
 					}
@@ -946,14 +1114,14 @@ func cliPlanted(ctx context.Context, r *evid.Run, st *cliStats, scratch string) 
 	if r.Quick() {
 		maxAll, maxOther = 2, 1
 	}
-	for _, s := range enum.Subsets(len(plants), 0, maxAll) {
-		jobs = append(jobs, wsJob{s, "ws", baseShape, "single"})
+	for _, s := range enum.Subsets(nCorePlants, 0, maxAll) {
+		jobs = append(jobs, wsJob{set: s, dirName: "ws", shape: baseShape, layout: "single"})
 	}
 	if r.Quick() {
 		// quick: triples only over one plant of each kind
 		sub := pick("L1", "K1", "C1", "M1", "U1")
 		for _, t := range enum.Subsets(len(sub), 3, 3) {
-			jobs = append(jobs, wsJob{[]int{sub[t[0]], sub[t[1]], sub[t[2]]}, "ws", baseShape, "single"})
+			jobs = append(jobs, wsJob{set: []int{sub[t[0]], sub[t[1]], sub[t[2]]}, dirName: "ws", shape: baseShape, layout: "single"})
 		}
 	}
 	hostileSets := [][]int{pick("L1", "L2"), pick("K1", "K3"), pick("C1"), pick("M1", "U1")}
@@ -968,10 +1136,10 @@ func cliPlanted(ctx context.Context, r *evid.Run, st *cliStats, scratch string) 
 	}
 	for _, d := range dirNames[1:] {
 		for _, s := range hostileSets {
-			jobs = append(jobs, wsJob{s, d, baseShape, "single"})
+			jobs = append(jobs, wsJob{set: s, dirName: d, shape: baseShape, layout: "single"})
 		}
 		// an annotation produced by the package scan (its file name is resolved by other code than the compiler's)
-		jobs = append(jobs, wsJob{pick("S3"), d, pkgFilesA, "single"})
+		jobs = append(jobs, wsJob{set: pick("S3"), dirName: d, shape: pkgFilesA, layout: "single"})
 	}
 	// every other (input shape, layout) x every subset of <= maxOther plants
 	for _, layout := range layouts {
@@ -979,8 +1147,62 @@ func cliPlanted(ctx context.Context, r *evid.Run, st *cliStats, scratch string) 
 			if sh.ID == baseShape.ID && layout == "single" {
 				continue
 			}
-			for _, s := range enum.Subsets(len(plants), 0, maxOther) {
-				jobs = append(jobs, wsJob{s, "ws", sh, layout})
+			for _, s := range enum.Subsets(nCorePlants, 0, maxOther) {
+				jobs = append(jobs, wsJob{set: s, dirName: "ws", shape: sh, layout: layout})
+			}
+		}
+	}
+	shapeByID := map[string]shape{}
+	for _, sh := range shapes {
+		shapeByID[sh.ID] = sh
+	}
+	// file naming: every other naming x the sets whose annotations name both files, one file and no file, a file
+	// that only the package scan reads, and each file named by a file reference; all five renderings are compared
+	for _, nm := range namings[1:] {
+		for _, s := range hostileSets {
+			jobs = append(jobs, wsJob{set: s, dirName: "ws", shape: baseShape, layout: "single", names: nm})
+		}
+		jobs = append(jobs, wsJob{set: pick("S3"), dirName: "ws", shape: pkgFilesA, layout: "single", names: nm})
+		jobs = append(jobs, wsJob{set: pick("L1", "U1"), dirName: "ws", shape: shapeByID["file-a"], layout: "single", names: nm})
+		jobs = append(jobs, wsJob{set: pick("L2", "U2"), dirName: "ws", shape: shapeByID["file-b"], layout: "multi", names: nm})
+	}
+	// formatting variants: the kind and the place of the difference between a file and its formatted form.
+	// Only `buf format` is run (six output modes). Alone (every other file of the input is clean), for every
+	// input shape that `buf format` accepts, and together with an unformatted other file.
+	var variantsOf = map[string][]int{}
+	for i, p := range plants {
+		if p.Kind == "unformatted" && p.Variant != "" {
+			variantsOf[p.File] = append(variantsOf[p.File], i)
+		}
+	}
+	for _, file := range []string{"a", "b"} {
+		other, otherBase := "b", index["U2"]
+		if file == "b" {
+			other, otherBase = "a", index["U1"]
+		}
+		for _, v := range variantsOf[file] {
+			for _, layout := range layouts {
+				for _, sh := range shapes {
+					if sh.Kind == "pkgfiles" {
+						continue
+					}
+					// quick: the directory in both layouts and the file reference naming the edited file
+					if r.Quick() && !(sh.Kind == "dir" || sh.Kind == "file" && sh.Target == file && layout == "single") {
+						continue
+					}
+					jobs = append(jobs, wsJob{set: []int{v}, dirName: "ws", shape: sh, layout: layout, formatOnly: true})
+				}
+			}
+			pair := func(w int) []int {
+				s := []int{v, w}
+				sort.Ints(s)
+				return s
+			}
+			jobs = append(jobs, wsJob{set: pair(otherBase), dirName: "ws", shape: baseShape, layout: "single", formatOnly: true})
+			if !r.Quick() && file == "a" {
+				for _, w := range variantsOf[other] {
+					jobs = append(jobs, wsJob{set: pair(w), dirName: "ws", shape: baseShape, layout: "single", formatOnly: true})
+				}
 			}
 		}
 	}
@@ -992,6 +1214,13 @@ func cliPlanted(ctx context.Context, r *evid.Run, st *cliStats, scratch string) 
 	r.Set("B_dir_names", dirNames)
 	r.Set("B_input_shapes", shapeIDs)
 	r.Set("B_layouts", layouts)
+	var variantIDs []string
+	for _, v := range formatVariants {
+		variantIDs = append(variantIDs, v.ID)
+	}
+	r.Set("B_file_namings", namings)
+	r.Set("B_format_variants", variantIDs)
+	r.Set("B_core_plants", nCorePlants)
 	r.Set("B_commands", append(append([]string(nil), commands...), outputModeCommands...))
 	r.Set("B_workspace_jobs", len(jobs))
 	// the model's premise: the unplanted workspace is clean for every command (checked by the first job)
